@@ -35,19 +35,28 @@ def _remove_path(path: pathlib.Path):
         path.unlink()
 
 
-def _restore_backups(base_path: pathlib.Path, max_backups):
-    """Undo _increment_backups after a failed save"""
+def _restore_backups(base_path: pathlib.Path, max_backups, rotated):
+    """Undo _increment_backups after a failed save
+
+    ``rotated`` tells whether the rotation was completed, in which case
+    whatever is at ``base_path`` is partial output. Otherwise the rotation
+    itself failed half-way, and the copies moved so far are moved back
+    into the slots left free.
+    """
     try:
-        _remove_path(base_path)     # partial output
+        if rotated:
+            _remove_path(base_path)     # partial output
         for nth in range(1, max_backups + 1):
             backup_path = pathlib.Path(str(base_path) + "_BAK" + str(nth))
-            if backup_path.exists():
-                postfix = "_BAK" + str(nth - 1) if nth > 1 else ""
-                backup_path.rename(pathlib.Path(str(base_path) + postfix))
+            postfix = "_BAK" + str(nth - 1) if nth > 1 else ""
+            prev_path = pathlib.Path(str(base_path) + postfix)
+            if backup_path.exists() and not prev_path.exists():
+                backup_path.rename(prev_path)
         old_path = pathlib.Path(str(base_path) + _OLD_POSTFIX)
-        if old_path.exists():
-            postfix = "_BAK" + str(max_backups) if max_backups else ""
-            old_path.rename(pathlib.Path(str(base_path) + postfix))
+        postfix = "_BAK" + str(max_backups) if max_backups else ""
+        last_path = pathlib.Path(str(base_path) + postfix)
+        if old_path.exists() and not last_path.exists():
+            old_path.rename(last_path)
     except OSError:
         pass    # Report the error that made the save fail
 
@@ -97,10 +106,11 @@ def write_model(system, model, model_path,
     max_backups = DEFAULT_MAX_BACKUPS if backup else 0
 
     root = pathlib.Path(model_path)
-    _increment_backups(model, root, max_backups)
-
     serializer = _get_serializer(version)
+    rotated = False
     try:
+        _increment_backups(model, root, max_backups)
+        rotated = True
         serializer.ModelWriter(system, model, root,
                                is_zip=is_zip,
                                log_input=log_input,
@@ -109,7 +119,7 @@ def write_model(system, model, model_path,
                                ).write_model()
     except BaseException:
         # Remove the partial output and put the earlier copies back
-        _restore_backups(root, max_backups)
+        _restore_backups(root, max_backups, rotated)
         raise
     else:
         _remove_path(pathlib.Path(str(root) + _OLD_POSTFIX))
